@@ -234,6 +234,17 @@ def run(case, ctx):
     ctx.count("entry:retest-after-other-document")
     if not ok or rt2.is_valid is not exp["valid"] or [(tuple(f.path), canon(f.value)) for f in rt2.failures] != exp_f:
         ctx.violate(f"C05/history/{pcls}/{ccls}", f"the same rule object judges the same document differently after testing another one; rule={rterm}")
+    # history (round 12): the same rule tests the SAME document object again right after the caller edited it in place below
+    # the top level, and then a typed twin of the document (1 / True / 1.0 swapped): every verdict is that of the document
+    # as it is at the time of the call (a lookup memo keyed on ==, or holding nested containers by reference, goes stale)
+    d4 = M.deep_copy(doc)
+    ok, _r = call(rule.test, d4)
+    if ok and _edit_nested(d4):
+        _judge_now(ctx, rule, rterm, d4, "nested-in-place-edit", pcls, ccls)
+    ok, _r = call(rule.test, doc)
+    d5 = _typed_twin(doc)
+    if ok and repr(d5) != repr(doc):
+        _judge_now(ctx, rule, rterm, d5, "typed-twin-document", pcls, ccls)
     for name, detail in mon.CONTRACTS.take():
         ctx.violate(f"C05/contract:{name}", detail)
     nf, ns = len(exp["failures"]), exp["selected"]
@@ -268,3 +279,43 @@ def _edit_scalars(x):
                 x[k] = "was-empty"
         else:
             x[k] = [] if type(v) in (int, float, str, bool) else 0
+
+
+def _edit_nested(doc):
+    """in place, below the top level only; True when something was edited"""
+    done = False
+    for v in (doc.values() if type(doc) is dict else doc):
+        if type(v) in (dict, list) and v:
+            _edit_scalars(v)
+            done = True
+    return done
+
+
+def _typed_twin(x):
+    """an equal-looking document: the same shape and keys with every 0 / 1 / whole number replaced by its typed twin"""
+    if type(x) is dict:
+        return {k: _typed_twin(v) for k, v in x.items()}
+    if type(x) is list:
+        return [_typed_twin(v) for v in x]
+    if type(x) is bool:
+        return int(x)
+    if type(x) is int and x in (0, 1):
+        return bool(x)
+    if type(x) is int and abs(x) < 2 ** 53:
+        return float(x)
+    if type(x) is float and x == x and abs(x) < 2 ** 53 and x == int(x):
+        return int(x)
+    return x
+
+
+def _judge_now(ctx, rule, rterm, d, label, pcls, ccls):
+    e = M.rule_model(rterm, d)
+    if e is M.SKIP:
+        return
+    ctx.count("entry:retest-after-" + label)
+    ok, r = call(rule.test, d)
+    got = (r.is_valid, r.tested, [(tuple(f.path), canon(f.value)) for f in r.failures]) if ok else repr(r)
+    want = (e["valid"], e["tested"], [(p, canon(v)) for p, v in e["failures"]])
+    if got != want:
+        ctx.violate(f"C05/history:{label}/{pcls}/{ccls}", f"the same rule object, used on the document before, now gives {str(got)[:300]}; "
+                    f"the document as it is now gives {str(want)[:300]}; rule={rterm}\n doc={d!r}")
